@@ -122,3 +122,14 @@ def atom_names(n, prefix="A", hydrogens=None):
         else:
             out.append("%s%d" % (prefix, k))
     return out
+
+
+def purge():
+    """delete the scratch files written so far (objects already loaded keep working: System/Molecule read
+    everything they need at load time except SystemGro, which keeps its file open - only purge between cases)"""
+    if _TMP is not None:
+        for f in os.listdir(_TMP):
+            try:
+                os.remove(os.path.join(_TMP, f))
+            except OSError:
+                pass
